@@ -558,7 +558,8 @@ package rpc
 //@   ghostset gb_closeCalled(conn) = true
 //@   ensures [C20] gg_codecClose() == old(gg_codecClose()) || gg_codecClose() == old(gg_codecClose()) + 1
 //@   ensures [C20] implies(gg_codecClose() == old(gg_codecClose()), err == ErrShutdown)
-//@   atcall ClientCodec.Close#1: [C20] conn.closing
+//@   ghostat store Conn.closing#1: gb_wasClosing(arg0) = arg0.closing
+//@   atcall ClientCodec.Close#1: [C20] conn.closing && !gb_wasClosing(conn)
 
 //@ field ctxPool: pool *Context
 //@ field callPool: pool *Call
@@ -596,6 +597,7 @@ package rpc
 //@   ensures implies(old(call.upgrade.Stream) != 2, call.upgrade == old(call.upgrade) && call.stream == old(call.stream) && call.Done == old(call.Done))
 //@   ensures implies(!gb_internal(call), gg_putcall() == old(gg_putcall()))
 //@   atcall (*Call).done#1: [C03] call.Error == ErrShutdown && gg_wreq() == old(gg_wreq())
+//@   atcall ClientCodec.WriteRequest#1: [C03] !conn.closing && !conn.shutdown
 //@   atcall ClientCodec.WriteRequest#1: [C01] arg0.Seq == seq && arg0.upgrade == call.upgrade && implies(call.upgrade.Stream == 2 || call.upgrade.Stream == 3, seq == call.stream.seq)
 //@   atcall (*Call).done#2: [C06] (gb_internal(call) || !has(conn.pending, seq)) && call.Error != nil
 
